@@ -25,7 +25,15 @@ RULE = ("ident: (a) ALL histories of length <= 3 (thorough: <= 4) over a 10-lett
         "(new id, encrypted, terminate, noop) / find_local_id / close over 1-4 users and 1-4 requesters drawn from pools with "
         "separators, spaces, '%', '=', ',', '__', non-ASCII, empty; a tenth of the random histories also confuses user names with "
         "identifier values (model faithfulness outside the property's hypotheses). Every history runs against a real "
-        "IdentDB({}); return value and the whole db dict are compared with the model after EVERY step. codec: batches of "
+        "IdentDB({}); return value and the whole db dict are compared with the model after EVERY step. (d) [round 2] ALL life "
+        "cycles issue / act / issue again / reverse lookup / list of one persistent identifier over 3x3 spellings of requester and "
+        "qualifier (value, '', absent) x same-or-other spelling at the later requests x entry point (persistent_nameid, "
+        "construct_nameid; thorough: get_nameid) x action (remove_remote, NewID, Terminate, NewID+Terminate, NewEncryptedID; "
+        "thorough: no-op) x REPRESENTATION of the NameID handed to the action (as returned / as find_nameid reads it from the store / "
+        "absent fields empty), with a second user on the same requester (quick 510, thorough 1836 after removing coinciding ones); "
+        "(e) [round 2] seeded random histories (quick 100, thorough 600) in which NameID arguments also vary in representation, "
+        "removals / manage requests are followed by a new request for the same triple in another spelling of its empty components "
+        "and a reverse lookup, and close() may re-open the same store with a new IdentDB object. codec: batches of "
         "five-field identifiers over a near-collision alphabet + decode on malformed strings. eptid: ALL ordered pairs of "
         "calls over a 4x4 (requester, user) alphabet around the '__' separator, ALL ordered pairs over 7 ways of splitting "
         "'abc' over user id and extra arguments x 2 requesters, plus random histories with several "
@@ -65,13 +73,26 @@ def _pick_q(rng, pool, k):
     return rng.sample(pool, k)
 
 
-def gen_ident(rng, idx, thorough):
+def _respell(rng, x):
+    """another spelling of the same qualifier argument: absent and empty are the same requester / qualifier"""
+    return rng.choice(["", None]) if x in ("", None) else x
+
+
+def gen_ident(rng, idx, thorough, reps=False):
     """One abstract history.  kind: 'plain' (within the property's hypotheses, requesters/qualifiers
     non-empty), 'unqual' (empty requester and qualifier allowed: class 3 reachable), 'multi' (several
     non-transient formats per requester: class 2 reachable), 'confused' (user names and identifier
-    values overlap; raw stores of arbitrary identifiers)."""
+    values overlap; raw stores of arbitrary identifiers).
+    reps (strengthening round 2): the NameID handed to an operation also varies in its REPRESENTATION (as an earlier
+    step returned it / as the store holds it: empty fields absent / absent fields empty), removals and
+    manage-name-id requests are followed (half of the time) by a new request for the same (user, requester,
+    qualifier) in another spelling of its empty components and a reverse lookup of the answer, and 'close' may
+    re-open the store with a new IdentDB object (case["reopen"])."""
     r = rng.random()
-    kind = "plain" if r < 0.6 else ("unqual" if r < 0.75 else ("multi" if r < 0.9 else "confused"))
+    if reps:
+        kind = "plain" if r < 0.3 else ("unqual" if r < 0.75 else ("multi" if r < 0.9 else "confused"))
+    else:
+        kind = "plain" if r < 0.6 else ("unqual" if r < 0.75 else ("multi" if r < 0.9 else "confused"))
     nu, nsp = rng.randint(1, 4), rng.randint(1, 4)
     users = _pick_q(rng, USER_POOL, nu)
     sps = _pick_q(rng, SP_POOL, nsp)
@@ -96,6 +117,8 @@ def gen_ident(rng, idx, thorough):
                   ("findlocal", 8), ("mapping", 6), ("manage", 14), ("remove", 6), ("removelocal", 2), ("store", 4),
                   ("close", 1)]
     names, weights = zip(*maxweights)
+    triple = {}           # issuing step -> (user, requester, qualifier) it asked for (reps only)
+    forced = []           # operations that must come next (reps only)
 
     def nid_ref():
         nonlocal lit
@@ -107,6 +130,12 @@ def gen_ident(rng, idx, thorough):
         else:
             lit += 1
             spec = {"lit": [None, rng.choice(sps), rng.choice(fmts), None, "unknown-%d" % lit]}
+        if reps:
+            z = rng.random()
+            if z < 0.35:
+                spec["rep"] = "stored"
+            elif z < 0.5:
+                spec["rep"] = "empty"
         y = rng.random()
         if y < 0.08:
             spec["drop"] = [rng.choice([0, 1, 2, 3])]
@@ -117,14 +146,46 @@ def gen_ident(rng, idx, thorough):
         return spec
 
     for k in range(n):
+        if forced:
+            f = forced.pop(0)
+            if f["op"] == "findlocal":
+                f = {"op": "findlocal", "n": {"ref": k - 1}}
+            else:
+                issuing.append(k)
+                triple[k] = (f["u"], f["s"], f["q"])
+            ops.append(f)
+            continue
         o = rng.choices(names, weights)[0]
         u = rng.choice(users)
         if kind == "confused" and rng.random() < 0.1 and issuing:
             u = {"ref_text": rng.choice(issuing)}
         s, q = rng.choice(sps), rng.choice(nqs + ["", None])
+        if reps and o in ("manage", "remove") and triple and rng.random() < 0.6:
+            # act on an identifier that a request answered, then ask again for the same triple
+            k0 = rng.choice(sorted(triple)[-6:])
+            spec = {"ref": k0}
+            z = rng.random()
+            if z < 0.4:
+                spec["rep"] = "stored"
+            elif z < 0.55:
+                spec["rep"] = "empty"
+            if o == "remove":
+                ops.append({"op": o, "n": spec})
+            else:
+                x = rng.random()
+                new = ["some", rng.choice(SPID_POOL + [None, ""])] if x < 0.55 else None
+                ops.append({"op": o, "n": spec, "new": new, "enc": rng.random() < 0.1, "term": rng.random() < (0.15 if new else 0.8)})
+                issuing.append(k)
+            u0, s0, q0 = triple[k0]
+            forced.append({"op": "persistent", "u": u0, "s": _respell(rng, s0), "q": _respell(rng, q0)})
+            if rng.random() < 0.6:
+                forced.append({"op": "findlocal"})
+            continue
         if o == "persistent":
             ops.append({"op": o, "u": u, "s": s, "q": q})
             issuing.append(k)
+            if reps and not isinstance(u, dict):
+                triple[k] = (u, s, q)
         elif o == "transient":
             ops.append({"op": o, "u": u, "s": s, "q": q})
             issuing.append(k)
@@ -181,6 +242,9 @@ def gen_ident(rng, idx, thorough):
                                                          rng.choice([None, None] + SPID_POOL), txt]}})
         else:
             ops.append({"op": "close"})
+    if reps:
+        return {"kind": "ident", "flavour": "reps-" + kind, "cfg": cfg, "users": users, "ops": ops, "idx": idx,
+                "reopen": rng.random() < 0.5}
     return {"kind": "ident", "flavour": kind, "cfg": cfg, "users": users, "ops": ops, "idx": idx}
 
 
@@ -254,6 +318,76 @@ def gen_ident_scenarios():
                             {"op": "find", "u": "alice", "flt": []}]
                     out.append({"kind": "ident", "flavour": "scenario", "cfg": {"domain": "example.org", "nq": ENUM_NQ},
                                 "users": ["alice"], "ops": ops, "idx": len(out)})
+    return out
+
+
+LC_ACTS = ["remove", "newid", "terminate", "newid+terminate", "enc", "noop"]
+LC_REPS = ["ret", "stored", "empty"]
+
+
+def gen_ident_lifecycles(thorough):
+    """(strengthening round 2) ALL life cycles  issue -> act -> issue again -> look at it  of one persistent
+    identifier on a long-lived IdentDB, over: every spelling of the requester and of the qualifier at the first
+    request (a value / the empty string / absent), the same or the other spelling of the empty components at the
+    later requests, the issuing entry point (persistent_nameid / construct_nameid with a persistent local policy;
+    thorough: also get_nameid), the action in between (remove_remote, NewID, Terminate, NewID then Terminate,
+    NewEncryptedID; thorough: also a no-op manage request), and the REPRESENTATION of the NameID handed to that action (the object
+    the first request returned / the one find_nameid reads from the store: empty fields absent / absent fields
+    empty).  A second user with the same requester is issued an identifier first and asked for again at the end.
+    Histories that coincide after resolving these choices are generated once."""
+    import json
+
+    out, seen = [], set()
+    spell = [("v", None), ("e", ""), ("n", None)]
+    issue_ops = ["persistent", "construct"] + (["get"] if thorough else [])
+    reissue_ops = ["persistent"] + (["construct"] if thorough else [])
+
+    def val(tag, v):
+        return v if tag == "v" else ("" if tag == "e" else None)
+
+    def other(tag):
+        return {"v": "v", "e": "n", "n": "e"}[tag]
+
+    def issue(op, u, s, q):
+        if op == "persistent":
+            return {"op": "persistent", "u": u, "s": s, "q": q}
+        if op == "get":
+            return {"op": "get", "u": u, "f": P, "s": s, "q": q}
+        return {"op": "construct", "u": u, "lp": P, "s": s, "pol": None, "q": q}
+
+    for st, _ in spell:
+        for qt, _ in spell:
+            # construct_nameid replaces an empty qualifier by the configured one: configure none for those
+            cfg = {"domain": "example.org", "nq": ENUM_NQ if qt == "v" else ""}
+            s1, q1 = val(st, ENUM_SP2), val(qt, ENUM_NQ)
+            for swap in (False, True):
+                s2, q2 = (val(other(st), ENUM_SP2), val(other(qt), ENUM_NQ)) if swap else (s1, q1)
+                for iop in issue_ops:
+                    for rop in reissue_ops:
+                        for act in (LC_ACTS if thorough else LC_ACTS[:-1]):
+                            for rep in LC_REPS:
+                                ops = [issue(iop, "alice", s1, q1), issue(iop, "bob smith", s1, q1),
+                                       {"op": "find", "u": "alice", "flt": []}]
+                                ref = {"ref": 2, "i": 0} if rep == "stored" else ({"ref": 0} if rep == "ret" else {"ref": 0, "rep": "empty"})
+                                for a in act.split("+"):
+                                    if a == "remove":
+                                        ops.append({"op": "remove", "n": ref})
+                                    else:
+                                        ops.append({"op": "manage", "n": ref, "new": ["some", "new,id=1"] if a == "newid" else None,
+                                                    "enc": a == "enc", "term": a == "terminate"})
+                                        ref = {"ref": len(ops) - 1}
+                                        if rep != "ret":
+                                            ref["rep"] = rep
+                                k = len(ops)
+                                ops += [issue(rop, "alice", s2, q2), {"op": "findlocal", "n": {"ref": k}},
+                                        {"op": "find", "u": "alice", "flt": []}, issue(iop, "alice", s1, q1),
+                                        issue("persistent", "bob smith", s2, q2), {"op": "findlocal", "n": {"ref": 0}}]
+                                key = json.dumps([cfg, ops], sort_keys=True)
+                                if key in seen:
+                                    continue
+                                seen.add(key)
+                                out.append({"kind": "ident", "flavour": "lifecycle", "cfg": cfg, "users": list(ENUM_USERS),
+                                            "ops": ops, "idx": "%s%s%d-%s-%s-%s-%s" % (st, qt, swap, iop[0], rop[0], act, rep)})
     return out
 
 
@@ -337,7 +471,10 @@ def generate(ctx):
               [gen_decode(rng, i) for i in range(2000 if ctx.thorough else 300)],
               gen_eptid_pairs(),
               gen_eptid_extras(),
-              [gen_eptid_random(rng, i) for i in range(600 if ctx.thorough else 100)]]
+              [gen_eptid_random(rng, i) for i in range(600 if ctx.thorough else 100)],
+              # strengthening round 2 (appended: the seeded random stream of the groups above is unchanged)
+              gen_ident_lifecycles(ctx.thorough),
+              [gen_ident(rng, "r%d" % i, ctx.thorough, reps=True) for i in range(600 if ctx.thorough else 100)]]
     # interleave the kinds so that the expensive histories are spread evenly over the coqc shards
     keyed = []
     for g in groups:
@@ -454,6 +591,10 @@ def observe_ident(case):
                 f = list(o[1][spec.get("i", 0) % len(o[1])])
         if f is None:
             f = [None, None, None, None, "nope-%d" % k]
+        if spec.get("rep") == "stored":         # as decode() reads it from the store: empty fields are absent
+            f = [x if x else None for x in f]
+        elif spec.get("rep") == "empty":        # absent qualifiers / SPProvidedID written as empty strings
+            f = ["" if (x is None and i in (0, 1, 3)) else x for i, x in enumerate(f)]
         for i in spec.get("drop", []):
             f[i] = None
         for i, v in spec.get("set", {}).items():
@@ -512,6 +653,8 @@ def observe_ident(case):
                 r = idb.store(conc["u"], mk(conc["n"]))
             elif kind == "close":
                 r = idb.close()
+                if case.get("reopen"):          # the provider is restarted on the same store: a new IdentDB object
+                    idb = IdentDB(idb.db, domain=case["cfg"]["domain"], name_qualifier=case["cfg"]["nq"])
             else:
                 raise AssertionError(kind)
             out = _abs_out(r)
